@@ -122,6 +122,20 @@ class HarnessError(Exception):
     pass
 
 
+class _NoDaemonProcess(multiprocessing.get_context("fork").Process):
+    @property
+    def daemon(self):
+        return False
+
+    @daemon.setter
+    def daemon(self, value):
+        pass
+
+
+class _NoDaemonContext(type(multiprocessing.get_context("fork"))):
+    Process = _NoDaemonProcess
+
+
 class Ctx(object):
     def __init__(self, pid, level, tier, seed):
         self.pid = pid
@@ -181,9 +195,11 @@ class Ctx(object):
     # -- parallel map -----------------------------------------------------
     def pool(self):
         if self._pool is None:
-            mp = multiprocessing.get_context("fork")
-            self._pool = mp.Pool(NPROC, initializer=_worker_init,
-                                 initargs=(self.seed,))
+            # workers must be able to start processes of their own (MpWriter
+            # sub-writers), so they are not daemonic
+            import multiprocessing.pool
+            self._pool = multiprocessing.pool.Pool(NPROC, initializer=_worker_init,
+                                                   initargs=(self.seed,), context=_NoDaemonContext())
         return self._pool
 
     def pmap(self, fn, tasks, chunksize=1, absorb=True):
@@ -209,6 +225,13 @@ class Ctx(object):
             self._pool.close()
             self._pool.join()
             self._pool = None
+
+    def __del__(self):
+        try:
+            if self._pool is not None:
+                self._pool.terminate()
+        except Exception:
+            pass
 
 
 class Acc(object):
